@@ -183,6 +183,7 @@ func ruleC20(c *Ctx) {
 		body string
 	}
 	var calcs []calc
+	nDelegating := 0
 	for _, f := range apk.Syntax {
 		for _, d := range f.Decls {
 			fd, ok := d.(*ast.FuncDecl)
@@ -202,6 +203,16 @@ func ruleC20(c *Ctx) {
 				return true
 			})
 			if inner == nil {
+				// a calculator that hands its transactions on to a sibling aggregates exactly like that sibling
+				if delegatesTo(info, fd, func(o *types.Func) bool {
+					d := c.P.declOf[o]
+					return d != nil && d != fd && d.Type.Results != nil && len(d.Type.Results.List) == 1 &&
+						strings.HasSuffix(types.TypeString(info.TypeOf(d.Type.Results.List[0].Type), nil), "analyzer.AccountBalances")
+				}) {
+					nDelegating++
+					c.ok("T10", c.P.declName(fd), "same posting aggregation as sibling", fd.Pos(), "the calculator returns the result of its sibling (delegation)")
+					continue
+				}
 				c.undecided("T10", c.P.declName(fd), "posting loop", fd.Pos(), "balance calculator without a loop over Postings")
 				continue
 			}
@@ -213,7 +224,8 @@ func ruleC20(c *Ctx) {
 			calcs = append(calcs, calc{fd, sb.String()})
 		}
 	}
-	c.census("T10", "account-balance calculators", len(calcs), 2)
+	c.census("T10", "account-balance calculators", len(calcs)+nDelegating, 2)
+	c.census("T10", "account-balance calculators with a posting loop", len(calcs), 1)
 	for i := 1; i < len(calcs); i++ {
 		c.check(calcs[i].body == calcs[0].body, "T10", c.P.declName(calcs[i].fd), "same posting aggregation as sibling", calcs[i].fd.Pos(),
 			"the per-posting aggregation is identical to "+c.P.declName(calcs[0].fd),
@@ -321,40 +333,34 @@ func ruleC20(c *Ctx) {
 				// direct append: must be preceded in the same function by a membership test on a `loaded`-like set
 				// that returns, and a mark of the same key (checked in detail by G-ONCE for the loader)
 				hasTest := false
-				ast.Inspect(fd.Body, func(y ast.Node) bool {
-					if ifs, ok := y.(*ast.IfStmt); ok && ifs.Pos() < as.Pos() {
-						if ix, ok := ast.Unparen(ifs.Cond).(*ast.IndexExpr); ok {
-							if t := finfo.TypeOf(ix.X); t != nil {
-								if m, ok := t.Underlying().(*types.Map); ok && types.TypeString(m.Elem(), nil) == "bool" && len(call.Args) == 2 && exprStr(c.P.Fset, ix.Index) == exprStr(c.P.Fset, call.Args[1]) {
-									hasTest = true
-								}
-							}
-						}
+				for _, g := range guardsIn(fd.Body) {
+					ix, ok := ast.Unparen(g.Cond).(*ast.IndexExpr)
+					if !ok || len(call.Args) != 2 || exprStr(c.P.Fset, ix.Index) != exprStr(c.P.Fset, call.Args[1]) {
+						continue
 					}
-					return true
-				})
+					t := finfo.TypeOf(ix.X)
+					if t == nil {
+						continue
+					}
+					if m, ok := t.Underlying().(*types.Map); !ok || types.TypeString(m.Elem(), nil) != "bool" {
+						continue
+					}
+					returns := stmtsContain(g.Body, func(m ast.Node) bool { _, ok := m.(*ast.ReturnStmt); return ok })
+					gcond := g.Cond
+					if returns && mustPassBefore(cfgOf(fd), as, func(x ast.Node) bool { return nodeCovers(x, gcond) }) {
+						hasTest = true
+					}
+				}
 				c.check(hasTest, "C20-ONCE", fname, "FileOrder append is de-duplicated", as.Pos(),
 					"the appended path was tested against a set of already listed files", "a path is appended to FileOrder without a membership test: a file reached twice is aggregated twice")
 				return true
 			}
-			// via helper: the helper must return early when the element is already present
+			// via helper: a module function that appends to its slice parameter must hand the slice back
+			// unchanged when the element is already present
 			if o, ok := calleeOf(finfo, call).(*types.Func); ok {
-				if decl := c.P.declOf[o]; decl != nil && strings.HasPrefix(strings.ToLower(o.Name()), "add") {
+				if decl := c.P.declOf[o]; decl != nil && decl.Body != nil && appendsToParam(c.P, decl) {
 					nApp++
-					dedup := false
-					ast.Inspect(decl.Body, func(y ast.Node) bool {
-						if ifs, ok := y.(*ast.IfStmt); ok {
-							if be, ok := ast.Unparen(ifs.Cond).(*ast.BinaryExpr); ok && be.Op == token.EQL {
-								for _, s := range ifs.Body.List {
-									if _, ok := s.(*ast.ReturnStmt); ok {
-										dedup = true
-									}
-								}
-							}
-						}
-						return true
-					})
-					c.check(dedup, "C20-ONCE", fname, "FileOrder append is de-duplicated", as.Pos(),
+					c.check(returnsEarlyWhenPresent(c.P, decl), "C20-ONCE", fname, "FileOrder append is de-duplicated", as.Pos(),
 						"the helper "+o.Name()+" returns the slice unchanged when the path is already present", "helper "+o.Name()+" appends without checking for presence")
 				}
 			}
@@ -702,4 +708,84 @@ func commodityReferenceCollector(p *Prog) *ast.FuncDecl {
 		})
 		return sel
 	})
+}
+
+// appendsToParam: the function contains `append(p, ...)` for one of its slice parameters p.
+func appendsToParam(p *Prog, decl *ast.FuncDecl) bool {
+	info := p.InfoFor(decl)
+	found := false
+	ast.Inspect(decl.Body, func(n ast.Node) bool {
+		if call, ok := n.(*ast.CallExpr); ok && identOf(call.Fun).Name == "append" && len(call.Args) >= 2 && !call.Ellipsis.IsValid() {
+			if v, ok := info.Uses[identOf(call.Args[0])].(*types.Var); ok && isParamOfDecl(info, decl, v) {
+				found = true
+			}
+		}
+		return true
+	})
+	return found
+}
+
+// returnsEarlyWhenPresent: the function has a guard that returns and whose condition is a membership
+// test of one parameter in another: `v == target` inside a range over the slice parameter, or
+// slices.Contains(values, target) (or a module function of that shape).
+func returnsEarlyWhenPresent(p *Prog, decl *ast.FuncDecl) bool {
+	info := p.InfoFor(decl)
+	isParam := func(e ast.Expr) bool {
+		v, ok := info.Uses[identOf(e)].(*types.Var)
+		return ok && isParamOfDecl(info, decl, v)
+	}
+	for _, g := range guardsIn(decl.Body) {
+		if !stmtsContain(g.Body, func(m ast.Node) bool { _, ok := m.(*ast.ReturnStmt); return ok }) {
+			continue
+		}
+		switch x := ast.Unparen(g.Cond).(type) {
+		case *ast.BinaryExpr:
+			if x.Op == token.EQL {
+				// one side is the range value of a loop over a parameter, the other a parameter
+				for _, pr := range [][2]ast.Expr{{x.X, x.Y}, {x.Y, x.X}} {
+					if !isParam(pr[1]) {
+						continue
+					}
+					vobj := info.Uses[identOf(pr[0])]
+					if vobj == nil {
+						continue
+					}
+					ok := false
+					ast.Inspect(decl.Body, func(n ast.Node) bool {
+						if rs, isR := n.(*ast.RangeStmt); isR && rs.Value != nil && info.Defs[identOf(rs.Value)] == vobj && isParam(rs.X) {
+							ok = true
+						}
+						return true
+					})
+					if ok {
+						return true
+					}
+				}
+			}
+		case *ast.CallExpr:
+			if len(x.Args) == 2 && isParam(x.Args[0]) && isParam(x.Args[1]) {
+				if q := qualName(calleeOf(info, x)); q == "slices.Contains" {
+					return true
+				}
+			}
+		}
+	}
+	return false
+}
+
+// delegatesTo: the function body is a single `return g(...)` with g satisfying pred.
+func delegatesTo(info *types.Info, fd *ast.FuncDecl, pred func(*types.Func) bool) bool {
+	if len(fd.Body.List) != 1 {
+		return false
+	}
+	r, ok := fd.Body.List[0].(*ast.ReturnStmt)
+	if !ok || len(r.Results) != 1 {
+		return false
+	}
+	call, ok := ast.Unparen(r.Results[0]).(*ast.CallExpr)
+	if !ok {
+		return false
+	}
+	o, ok := calleeOf(info, call).(*types.Func)
+	return ok && pred(o)
 }
